@@ -85,7 +85,7 @@ STEPS = {"finite_differences": 1e-7, "centered_differences": 1e-6, "complex_step
 
 def shards(tier, seed):
     n = 16
-    per = {"quick": 400, "thorough": 5000}[tier]
+    per = {"quick": 1500, "thorough": 30000}[tier]
     return [{"seed": subseed(seed, PID, i), "n_cases": per,
              "budget_s": {"quick": 350, "thorough": 2200}[tier]} for i in range(n)]
 
